@@ -15,7 +15,24 @@ class ThreadsProperty:
         if getattr(self, "instr", False):
             # instrumented build: extra pre-emption points inside engine code, on average every <n> function calls
             import random
-            sc["instr"] = random.Random(seed ^ 0x1257).choice((20, 100, 400, 2000))
+            r = random.Random(seed ^ 0x1257)
+            if self.kind == "push" and r.random() < 0.35:
+                # a family made for narrow engine-side windows: cycles that are *not* caused by a push (a timer re-arming itself
+                # every few microseconds) while producers send, with pauses, into a queue that is empty most of the time
+                period = r.choice((1, 2, 2, 3, 5))
+                sc = dict(seed=sc["seed"], start=0, end=r.choice((2000, 3000, 6000)), slice=10_000_000,
+                          pushes=[dict(name="p1", policy=r.choice(("queue", "queue", "burst")), capacity=r.choice((0, 0, 2)), id=1)],
+                          timers=[dict(id=60, script={k: ["+%d" % period] for k in range(0, r.choice((20, 40, 80)))})],
+                          threads=[], work={}, faults={})
+                v = 100
+                for t in range(r.choice((1, 1, 2))):
+                    ops = [("sleep", r.randint(1, 6))]
+                    for _ in range(r.randint(4, 10)):
+                        ops += [(r.choice(("try", "try", "block")), "p1", v), ("sleep", r.randint(2, 9))]
+                        v += 1
+                    sc["threads"].append(dict(name="T%d" % t, ops=ops))
+            sc["instr"] = r.choice((100, 400, 2000, 2000))
+            sc["instr_target"] = r.choice((0, 30, 30, 100, 100, 300))      # a seeded set of call sites is pre-empted at their first entries
         return dict(sc=sc)
 
     def execute(self, case, fresh):
